@@ -89,7 +89,17 @@ def seq_binop(en, a, b, opname):
     d = den.get(k) if _is_seq(den) else E.to_z3(den)
     rng = z3.And(k >= 0, k < E.to_z3(den.length)) if _is_seq(den) else z3.BoolVal(True)
     if en._sat(z3.And(rng, E._real(_num(d)) == 0)):
-      raise E.PathRaise('NonFinite')
+      if not getattr(en, 'allow_nonfinite', False):
+        raise E.PathRaise('NonFinite')
+      # numpy semantics under np.errstate: x / 0 is inf/nan, not an exception.  The entry becomes an opaque non-finite marker
+      # (a fresh uninterpreted value per position): any result that still depends on it cannot be proved equal to a finite spec.
+      NF = z3.Function(en.fresh_name('nonfinite'), z3.IntSort(), z3.RealSort())
+      def f(x, y, _arith=_arith('Div')):
+        return _arith(x, y)
+      seq = a if _is_seq(a) else b
+      num = (lambda i: a.get(i)) if _is_seq(a) else (lambda i: a)
+      den_ = (lambda i: b.get(i)) if _is_seq(b) else (lambda i: b)
+      return E.SymSeq(seq.length, lambda i: z3.If(E._real(_num(den_(i))) == 0, NF(E.to_z3(i)), E._real(_num(num(i))) / E._real(_num(den_(i)))), None, 'guarded-div')
   return _elementwise(en, a, b, _arith(opname), {'Add': '+', 'Sub': '-', 'Mult': '*', 'Div': '/'}.get(opname, opname))
 
 
